@@ -183,7 +183,7 @@ class Obj:
         return b
 
     def _parse_text(self):
-        txt = subprocess.check_output(['objdump', '-d', '-r', '-M', 'intel', '--no-show-raw-insn', '-w', '-j', '.text', self.path], text=True)
+        txt = subprocess.check_output(['objdump', '-d', '-r', '-M', 'intel', '--no-show-raw-insn', '-w', '-j', '.text', self.path], text=True, stderr=subprocess.DEVNULL)
         last = None
         for line in txt.splitlines():
             m = re.match(r'^([0-9a-f]+) <(.+)>:$', line)
